@@ -219,6 +219,16 @@ func (g *Gen) Narrow(t Ty) Ty {
 			return Rx(g.pickS(rxPool[1:]))
 		}
 		return t
+	case "rt": // more specific: a runtime for the default, a name for an empty name, a pattern for none
+		switch {
+		case t.S[0] == "":
+			return Runtime("ruby", t.S[1], t.S[2:]...)
+		case t.S[1] == "" && t.S[0] != "go":
+			return Runtime(t.S[0], "a", t.S[2:]...)
+		case len(t.S) == 2:
+			return Runtime(t.S[0], t.S[1], g.pickS(rxPool))
+		}
+		return t
 	case "coll":
 		lo, hi := t.Lo, t.Hi
 		if g.p(50) {
@@ -471,6 +481,16 @@ func (g *Gen) Widen(t Ty) Ty {
 			return Rx("")
 		}
 		return Atom("scalar")
+	case "rt": // less specific: drop the pattern, then the name, then the runtime
+		switch {
+		case len(t.S) > 2:
+			return Runtime(t.S[0], t.S[1])
+		case t.S[1] != "":
+			return Runtime(t.S[0], "")
+		case t.S[0] != "":
+			return Runtime("", "")
+		}
+		return Atom("any")
 	case "coll":
 		lo, hi := g.grow(t.Lo, t.Hi, 0)
 		return Coll(lo, hi)
